@@ -7,7 +7,7 @@ use std::hash::{Hash, Hasher};
 use boomphf::hashmap::BoomHashMap;
 use debruijn::dna_string::DnaString;
 use debruijn::vmer::Lmer;
-use debruijn::{Kmer, Mer, Vmer};
+use debruijn::{Kmer, Mer, MerImmut, Vmer};
 use proptest::prelude::*;
 use serde::{Deserialize, Serialize};
 use serde_json::json;
@@ -185,13 +185,22 @@ fn run_history<K: Kmer>(start: &[u8], ops: &[Op]) -> Result<Vec<(K, Seq)>, Strin
             }
             Op::Set(p, b) => {
                 let pos = crate::util::idx(*p, k);
-                km.set_mut(pos, *b);
+                if *p & 1 == 0 {
+                    km.set_mut(pos, *b);
+                } else {
+                    // non-mutating interface
+                    km = km.set(pos, *b);
+                }
                 s[pos] = *b;
             }
             Op::SetSlice(p, n, bases, garbage) => {
                 let pos = crate::util::idx(*p, k);
                 let n = 1 + crate::util::idx(*n, (k - pos).min(32));
-                km.set_slice_mut(pos, n, pack_top(&bases[..n], *garbage));
+                if *garbage & 1 == 0 {
+                    km.set_slice_mut(pos, n, pack_top(&bases[..n], *garbage));
+                } else {
+                    km = km.set_slice(pos, n, pack_top(&bases[..n], *garbage));
+                }
                 s[pos..pos + n].copy_from_slice(&bases[..n]);
             }
             Op::MinRc => {
